@@ -341,6 +341,9 @@ impl C08 {
             ("conservation-mutants", t.pick(60_000, 2_000_000)),
             // every Unicode scalar value in a string literal, in an identifier, or refused as illegal (props/unisweep.rs)
             ("code-point-sweep", super::unisweep::BLOCKS),
+            // two files on the command line: whatever the binary makes of the second one, the last word of the first file
+            // and the first word of the second stay two words
+            ("two-files", (TWO_FILES.len() * 2) as u64),
         ])
     }
 
@@ -417,6 +420,22 @@ fn straddles() -> &'static Vec<(usize, &'static str, usize, usize)> {
     })
 }
 
+/// (end of the first file, start of the second): the last and the first word would fuse without a separator
+const TWO_FILES: &[(&str, &str)] = &[
+    ("stel x = 1", "2; x"),
+    ("stel x = 1 // commentaar", "x = 2; x"),
+    ("stel al = 9; stel a = 7; stel r = a", "l; r"),
+    ("stel x = 1 <", "= 2; x"),
+    ("stel x = ja &", "& nee; x"),
+    ("stel x = 1; x =", "= 1"),
+    ("stel s = \"open", "dicht\"; s"),
+    ("stel x = 1.", "5; x"),
+    ("stel zo = 1; zo", "lang = 2; zo"),
+    ("stel x = 4 /", "/ 2; x"),
+    ("stel x = 12", "34"),
+    ("stel naam = 1; naam", "_twee"),
+];
+
 impl Check for C08 {
     fn id(&self) -> &'static str {
         "C08"
@@ -447,6 +466,34 @@ impl Check for C08 {
         let (f, name, i) = self.fams(ctx).locate(idx);
         let mut r = Rng::for_case(ctx.seed, 800 + f as u64, i);
         match name {
+            "two-files" => {
+                let (first, second) = TWO_FILES[(i / 2) as usize];
+                let first = if i % 2 == 0 { first.to_string() } else { format!("{}\n", first) };
+                let bin = format!("{}/harness/target-repo/release/nederlang", crate::sup::root());
+                if !std::path::Path::new(&bin).exists() {
+                    st.inconclusive(format!("{} not built", bin));
+                    return;
+                }
+                let base = format!("{}/two-{}-{}", crate::sup::scratch_dir(), std::process::id(), i);
+                let (pa, pb, pab) = (format!("{}-a.nl", base), format!("{}-b.nl", base), format!("{}-ab.nl", base));
+                let _ = std::fs::write(&pa, &first);
+                let _ = std::fs::write(&pb, second);
+                let _ = std::fs::write(&pab, format!("{}\n{}", first, second));
+                let run = |args: &[&str]| std::process::Command::new("/usr/bin/timeout").arg("60").arg(&bin).args(args).stdin(std::process::Stdio::null()).output().ok().map(|o| (String::from_utf8_lossy(&o.stdout).to_string(), String::from_utf8_lossy(&o.stderr).lines().next().unwrap_or("").to_string(), o.status.code()));
+                let alone = run(&[&pa]);
+                let joined = run(&[&pab]);
+                let both = run(&[&pa, &pb]);
+                for p in [&pa, &pb, &pab] {
+                    let _ = std::fs::remove_file(p);
+                }
+                st.evaluations += 3;
+                st.count("two-files:runs");
+                if let (Some(alone), Some(joined), Some(both)) = (alone, joined, both) {
+                    if both != alone && both != joined {
+                        st.violation("two-files:words-fused-or-lost", format!("`nederlang a.nl b.nl` gave {:?}; a.nl alone gives {:?}, both texts with a line end between them give {:?}", both, alone, joined), &format!("{:?} + {:?}", first, second));
+                    }
+                }
+            }
             "code-point-sweep" => {
                 let block = if ctx.flavour == crate::sup::Flavour::Miri { [0, 1, 2, 3, 0x20, 0x21, 0xFE, 0xFF][i as usize % 8] } else { i };
                 super::unisweep::strings(block, name, st);
